@@ -65,7 +65,9 @@ class StlPastifier(LtlPastifier, StlAstVisitor):
         out = StlAstVisitor.visit(self, node, *args, **kwargs)
         d = self.ast.phi_name_to_node_dict
         keys = [k for k, v in d.items() if v == node]
-        self.ast.phi_name_to_node_dict.update({key: out for key in keys})
+        # the name of a variable keeps denoting the variable (the data supplied for it), not the delay wrapped round it
+        named = out.children[0] if isinstance(node, Variable) and not isinstance(out, Variable) else out
+        self.ast.phi_name_to_node_dict.update({key: named for key in keys})
         return out
 
     def visitVariable(self, node, *args, **kwargs):
